@@ -656,7 +656,10 @@ def task_helper_text(ctx, repo):
         return o
     stA = stepper('AStep', {'initialize': ['self', 'd_idx', 'd_x', 'd_x0'],
                             'stage1': ['self', 'd_idx', 'd_u', 'd_au', 'dt'],
-                            'stage2': ['self', 'd_idx', 'd_x', 'd_u', 's_m',
+                            # (property names may contain underscores:
+                            # SWEStep's u_prev_step, rho_0 ...)
+                            'stage2': ['self', 'd_idx', 'd_x', 'd_u',
+                                       'd_u_prev_step', 's_m', 's_rho_0',
                                        't', 'dt']}, py=('stage1',))
     stB = stepper('BStep', {'stage1': ['self', 'd_idx', 'd_rho', 'dt']},
                   py=('stage3',))
@@ -700,15 +703,17 @@ def task_helper_text(ctx, repo):
                        'steppers["wall"].__dict__)'))
         checks.append(('stepper_loop', run('get_stepper_loop', dest='fluid',
                                            method='stage2'),
-                       'self.fluid_stepper.stage2(d_idx, d_x, d_u, s_m, t, '
-                       'dt)'))
+                       'self.fluid_stepper.stage2(d_idx, d_x, d_u, '
+                       'd_u_prev_step, s_m, s_rho_0, t, dt)'))
         checks.append(('stepper_loop.other_dest', run(
             'get_stepper_loop', dest='solid', method='stage1'),
             'self.solid_stepper.stage1(d_idx, d_rho, dt)'))
         checks.append(('array_setup', run('get_array_setup', dest='fluid',
                                           method='stage2'),
-                       'd_u = dst.u.data\nd_x = dst.x.data\n'
-                       's_m = dst.m.data'))
+                       'd_u = dst.u.data\n'
+                       'd_u_prev_step = dst.u_prev_step.data\n'
+                       'd_x = dst.x.data\ns_m = dst.m.data\n'
+                       's_rho_0 = dst.rho_0.data'))
         checks.append(('py_stage', run('get_py_stage_code', dest='fluid',
                                        method='stage1'),
                        'self.steppers["fluid"].py_stage1(dst.array, t, dt)'))
